@@ -75,9 +75,9 @@ func mkIntRW[N int | int16 | int32 | int64]() intRW {
 		rt: func(v int64) sx {
 			src := fresh()
 			src.A = N(v)
-			w := avro.NewWriteBuf(nil)
+			w, pre := newWB()
 			c.Write(w, unsafe.Pointer(&src.A))
-			bs := append([]byte(nil), w.Bytes()...)
+			bs := wbOut(w, pre)
 			dst := fresh()
 			r := avro.NewReadBuf(bs)
 			err := c.Read(r, unsafe.Pointer(&dst.A))
@@ -121,9 +121,9 @@ func newExecC17() func(op string, args []sx) sx {
 	return func(op string, a []sx) sx {
 		switch op {
 		case "varint-w":
-			w := avro.NewWriteBuf(nil)
+			w, pre := newWB()
 			w.Varint(a[0].int())
-			return H(w.Bytes())
+			return H(wbOut(w, pre))
 		case "int-r":
 			return get(a[0].atom).read(a[1].bytes())
 		case "int-s":
@@ -133,7 +133,7 @@ func newExecC17() func(op string, args []sx) sx {
 		case "intk-rt": // Go `int` kind
 			return get("int").rt(a[1].int())
 		case "f-w":
-			w := avro.NewWriteBuf(nil)
+			w, pre := newWB()
 			if a[0].int() == 4 {
 				f := math.Float32frombits(uint32(a[1].uint()))
 				fc.Write(w, unsafe.Pointer(&f))
@@ -141,7 +141,7 @@ func newExecC17() func(op string, args []sx) sx {
 				f := math.Float64frombits(a[1].uint())
 				dc.Write(w, unsafe.Pointer(&f))
 			}
-			return H(w.Bytes())
+			return H(wbOut(w, pre))
 		case "f-r":
 			r := avro.NewReadBuf(a[1].bytes())
 			if a[0].int() == 4 {
@@ -166,9 +166,9 @@ func newExecC17() func(op string, args []sx) sx {
 			return T("ok", U(math.Float64bits(g[0])), I(int64(r.Len())))
 		case "f32d-rt":
 			f := math.Float32frombits(uint32(a[0].uint()))
-			w := avro.NewWriteBuf(nil)
+			w, pre := newWB()
 			fdc.Write(w, unsafe.Pointer(&f))
-			bs := append([]byte(nil), w.Bytes()...)
+			bs := wbOut(w, pre)
 			var h [2]float32
 			h[1] = 7
 			r := avro.NewReadBuf(bs)
@@ -181,9 +181,9 @@ func newExecC17() func(op string, args []sx) sx {
 			return T("ok", H(bs), U(uint64(math.Float32bits(h[0]))))
 		case "bool-w":
 			b := a[0].atom == "true"
-			w := avro.NewWriteBuf(nil)
+			w, pre := newWB()
 			bc.Write(w, unsafe.Pointer(&b))
-			return H(w.Bytes())
+			return H(wbOut(w, pre))
 		case "bool-r":
 			var g [2]bool
 			r := avro.NewReadBuf(a[0].bytes())
